@@ -97,7 +97,7 @@ Inductive SimpleB : bool -> bool -> stmt -> Prop :=
 | B_if inl inr c a : ValOk c -> SimpleB inl inr a -> SimpleB inl inr (SIf c a None)
 | B_ifelse inl inr c a b : ValOk c -> SimpleB inl inr a -> SimpleB inl inr b -> SimpleB inl inr (SIf c a (Some b))
 | B_block inl inr l : SimpleBL inl inr l -> SimpleB inl inr (SBlock l)
-| B_while inl inr c a : plain_rval mt c = true -> SimpleB true inr a -> SimpleB inl inr (SRepeat (LWhile c) a)
+| B_while inl inr c a : ValOk c -> SimpleB true inr a -> SimpleB inl inr (SRepeat (LWhile c) a)
 | B_count inl inr n a : plain_rval mt n = true -> SimpleB true inr a -> SimpleB inl inr (SRepeat (LCount n) a)
 | B_infinite inl inr a : SimpleB true inr a -> SimpleB inl inr (SRepeat LInfinite a)
 | B_idx inl inr l v pre body : idx_form rt mt l v pre -> SimpleB true inr body -> SimpleB inl inr (SRepeat l body)
@@ -376,7 +376,7 @@ Proof.
   - intros inl inr c a b Hc _ IHa _ IHb after. rewrite c_if2_after, !forallb_app, (IHa _), (IHb after), (valok_no_routine c Hc). reflexivity.
   - intros inl inr l _ IH after. exact (IH after).
   - intros inl inr c a Hc _ IHa after. rewrite c_loop_after, c_whileB, app_nil_r, !forallb_app, (IHa (Some 1)),
-      (c_rval_no_routine rt mt c (DReg R_RESULT) Hc (plain_ok_result mt c Hc)). reflexivity.
+      (valok_no_routine c Hc). reflexivity.
   - intros inl inr n a Hn _ IHa after. rewrite c_loop_after, c_count, !forallb_app, (IHa _), (c_rval_counter_no_routine rt mt n Hn). reflexivity.
   - intros inl inr a _ IHa after. rewrite c_loop_after, c_infinite, app_nil_r, !forallb_app, (IHa (Some 1)). reflexivity.
   - intros inl inr l v pre body Hform _ IHa after. destruct Hform as (Hcode & Hnr & _). rewrite c_loop_after, Hcode, !forallb_app, (IHa _), Hnr. reflexivity.
@@ -1373,7 +1373,7 @@ Proof.
     destruct fuel as [|[|fuel]]; try discriminate. rewrite exec_while in He.
     rewrite c_loop_after, c_whileB, app_nil_r in *.
     pose proof (proj1 simpleB_no_routine true inr a Ha (Some 1)) as Hnrb.
-    pose proof (c_rval_no_routine rt mt c (DReg R_RESULT) Hc (plain_ok_result mt c Hc)) as Hnrt.
+    pose proof (valok_no_routine c Hc) as Hnrt.
     rewrite (len_no_routine _ Hnrb), (len_no_routine _ Hnrt) in *.
     set (T := c_rval rt mt c (DReg R_RESULT)) in *. set (B := c_stmt rt mt false (Some 1) a) in *.
     set (kT := zlength T) in *. set (kB := zlength B) in *.
@@ -1403,65 +1403,67 @@ Proof.
       rewrite iterate_while in Hit.
       destruct (eval_rval rt mt f false ss1 c) as [x sa|e sa|sa] eqn:Ev; cbn [sbind] in Hit; try discriminate.
       assert (HcTx : code_at im (m_pc sx) T) by (rewrite Hpcx; exact HcT).
-      destruct (c_rval_runs rt mt c (DReg R_RESULT) Hc (plain_ok_result mt c Hc) im ss1 sx x sa f Hsx HcTx Ev) as [Hsa [n Hn]]. subst sa.
-      fold T in Hn. fold kT in Hn.
-      set (s2 := put_vm sx (DReg R_RESULT) x kT) in *.
-      assert (Hs2 : sim ss1 s2) by (apply sim_put_reg_hidden; [exact Hsx|reflexivity|reflexivity]).
-      assert (Hr2 : rf_get (m_regs s2) R_RESULT = Some x) by (unfold s2; cbn [put_vm m_regs]; apply rf_get_set_same).
-      assert (Hpc2 : m_pc s2 = P0 + 1 + kT) by (unfold s2; cbn [put_vm m_pc]; rewrite Hpcx; reflexivity).
+      destruct (val_runs c Hc f (fun k Hk => Hbs k ltac:(lia)) im ss1 sx x sa Hload Hsx HcTx Ev) as (n & s2 & e1 & Hn & Hs2 & Hpc2' & Hsf2 & Ht2 & Hr2).
+      fold T in Hpc2'. fold kT in Hpc2'.
+      assert (Hpc2 : m_pc s2 = P0 + 1 + kT) by (rewrite Hpc2', Hpcx; reflexivity).
+      destruct (loop_frame_kept s2 sx s lv d r Hsf2 Hstx Hfrx Herx) as [Hsk2 (r2 & Hfk2 & Her2)].
+      assert (Hct2 : call_tail (m_frames s2) = call_tail (m_frames s)) by (rewrite Hfk2; cbn [call_tail]; apply call_tail_fr_eq; exact Her2).
+      assert (Hd2 : in_depth_ok inr s2).
+      { intros Hi. rewrite Hfk2, Hsk2. cbn [depth_ok]. split; [apply Z.le_refl|]. apply (depth_ok_fr_eq (m_frames s) r2); [symmetry; exact Her2|exact (Hd Hi)]. }
+      assert (Hir2 : in_ret_ok inr (m_frames s2)) by (intros Hi; destruct (Hir Hi) as (ret & F & H); exists ret, F; rewrite Hct2; exact H).
       assert (Hfj2 : fetch im (m_pc s2) = Some (jump JC_IF_FALSE (kB + 2))) by (rewrite Hpc2; exact Hfj).
       pose proof (jump_if_false im s2 x (kB + 2) Hr2 Hfj2) as Ej.
       destruct (truthy x) eqn:Etx; cbn [negb] in Hit.
-      - destruct (Sem.exec rt mt f false ss1 a) as [sgb sb|eb sb|sb] eqn:Eb; cbn [sbind] in Hit; try discriminate.
+      - destruct (Sem.exec rt mt f false sa a) as [sgb sb|eb sb|sb] eqn:Eb; cbn [sbind] in Hit; try discriminate.
         set (s3 := with_pc s2 (m_pc s2 + 1)) in *.
         assert (HcB3 : code_at im (m_pc s3) B) by (unfold s3; cbn [with_pc m_pc]; rewrite Hpc2; exact HcB).
-        assert (Hst3 : m_stack s3 = m_stack s /\ m_frames s3 = FLoop lv d :: r) by (split; assumption).
+        assert (Hst3 : m_stack s3 = m_stack s /\ m_frames s3 = FLoop lv d :: r2) by (split; assumption).
         destruct Hst3 as [Hsk3 Hfk3].
-        assert (E23 : esteps (n + 1) im sx = Some (s3, [] ++ [])) by (eapply esteps_app; eassumption).
-        destruct (IHa (Some 1) im ss1 s3 sgb sb f ltac:(lia) Hload Hin1 Hirx Hdx (sim_with_pc ss1 s2 _ Hs2) HcB3 Eb)
+        assert (E23 : esteps (n + 1) im sx = Some (s3, e1 ++ [])) by (eapply esteps_app; eassumption).
+        destruct (IHa (Some 1) im sa s3 sgb sb f ltac:(lia) Hload Hin1 Hir2 Hd2 (sim_with_pc sa s2 _ Hs2) HcB3 Eb)
           as [[Hsgb (n3 & s4 & e4 & E4 & Hs4 & Hpc4 & Hst4 & Ht4)]|[[Hsgb (a' & Ha' & (n3 & s4 & e4 & E4 & Hs4 & Hpc4 & Hst4 & Ht4))]|[Hinr [v [Hsgb Hret]]]]]; subst sgb.
         + (* the body ends normally: back to the test *)
           assert (Hfjb4 : fetch im (m_pc s4) = Some (jump JC_ALWAYS (- (kT + 1 + kB)))).
           { rewrite Hpc4. unfold s3. cbn [with_pc m_pc]. rewrite Hpc2. fold B. fold kB. exact Hfjb. }
           pose proof (jump_always im s4 (- (kT + 1 + kB)) Hfjb4) as Ejb.
           set (s5 := with_pc s4 (m_pc s4 + - (kT + 1 + kB))) in *.
-          destruct (loop_frame_kept s4 s3 s lv d r Hst4 Hsk3 Hfk3 Herx) as [Hsk4 (r4 & Hfk4 & Her4)].
-          assert (E25 : esteps (n + (1 + (n3 + 1))) im sx = Some (s5, [] ++ ([] ++ (e4 ++ [])))) by (eapply esteps_app; [exact Hn|eapply esteps_app; [exact Ej|eapply esteps_app; [exact E4|exact Ejb]]]).
+          destruct (loop_frame_kept s4 s3 s lv d r2 Hst4 Hsk3 Hfk3 Her2) as [Hsk4 (r4 & Hfk4 & Her4)].
+          assert (E25 : esteps (n + (1 + (n3 + 1))) im sx = Some (s5, e1 ++ ([] ++ (e4 ++ [])))) by (eapply esteps_app; [exact Hn|eapply esteps_app; [exact Ej|eapply esteps_app; [exact E4|exact Ejb]]]).
           destruct (IHf sb s5 sg ssx lv r4 ltac:(lia) (sim_with_pc sb s4 _ Hs4)) as [[Hsg (n6 & s6 & e6 & E6 & Hs6 & Hpc6 & Hst6 & Ht6)]|[Hinr [v [Hsg Hret]]]].
           { unfold s5. cbn [with_pc m_pc]. rewrite Hpc4. unfold s3. cbn [with_pc m_pc]. rewrite Hpc2. fold B. fold kB. lia. }
           { exact Hfk4. }
           { exact Her4. }
           { exact Hsk4. }
           { exact Hit. }
-          * left. split; [exact Hsg|]. exists ((n + (1 + (n3 + 1))) + n6)%nat, s6, (([] ++ ([] ++ (e4 ++ []))) ++ e6).
+          * left. split; [exact Hsg|]. exists ((n + (1 + (n3 + 1))) + n6)%nat, s6, ((e1 ++ ([] ++ (e4 ++ []))) ++ e6).
             split; [eapply esteps_app; [exact E25|exact E6]|].
-            split; [exact Hs6|]. split; [exact Hpc6|]. split; [exact Hst6|]. cbn [app]. rewrite Ht6, Ht4, app_nil_r, app_assoc. reflexivity.
+            split; [exact Hs6|]. split; [exact Hpc6|]. split; [exact Hst6|]. cbn [app]. rewrite Ht6, Ht4, Ht2, app_nil_r, !app_assoc. reflexivity.
           * right. split; [exact Hinr|]. exists v. split; [exact Hsg|].
-            apply (returned_rebase im ss1 sx sb s5 (n + (1 + (n3 + 1)))%nat ([] ++ ([] ++ (e4 ++ []))) ssx E25); [|exact (loop_states_ret_stack s s5 sx lv r4 lv r Hfk4 Her4 Hsk4 Hfrx Herx Hstx (Hd Hinr))|cbn [app]; rewrite app_nil_r; exact Ht4|exact Hret].
+            apply (returned_rebase im ss1 sx sb s5 (n + (1 + (n3 + 1)))%nat (e1 ++ ([] ++ (e4 ++ []))) ssx E25); [|exact (loop_states_ret_stack s s5 sx lv r4 lv r Hfk4 Her4 Hsk4 Hfrx Herx Hstx (Hd Hinr))|cbn [app]; rewrite app_nil_r, Ht4, Ht2, app_assoc; reflexivity|exact Hret].
             change (m_frames s5) with (m_frames s4). rewrite Hfk4, Hctx. cbn [call_tail]. apply call_tail_fr_eq. exact Her4.
         + (* the body breaks: it has jumped to END_LOOP *)
           injection Ha' as Ha'. subst a'. injection Hit as Hsg Hss. subst ssx.
-          destruct (loop_frame_kept s4 s3 s lv d r Hst4 Hsk3 Hfk3 Herx) as [Hsk4 (r4 & Hfk4 & Her4)].
+          destruct (loop_frame_kept s4 s3 s lv d r2 Hst4 Hsk3 Hfk3 Her2) as [Hsk4 (r4 & Hfk4 & Her4)].
           assert (Hfe4 : fetch im (m_pc s4) = Some (I0 OC_END_LOOP)).
           { rewrite Hpc4. unfold s3. cbn [with_pc m_pc]. rewrite Hpc2. fold B. fold kB. exact Hfe. }
           destruct (end_loop_step im sb s4 s lv r4 Hs4 Hfe4 Hfk4 Her4 Hsk4) as (s5 & E5 & Hs5 & Hpc5 & Hst5).
-          left. split; [auto|]. exists (n + (1 + (n3 + 1)))%nat, s5, ([] ++ ([] ++ (e4 ++ []))).
+          left. split; [auto|]. exists (n + (1 + (n3 + 1)))%nat, s5, (e1 ++ ([] ++ (e4 ++ []))).
           split; [eapply esteps_app; [exact Hn|eapply esteps_app; [exact Ej|eapply esteps_app; [exact E4|exact E5]]]|].
           split; [exact Hs5|]. split; [rewrite Hpc5, Hpc4; unfold s3; cbn [with_pc m_pc]; rewrite Hpc2; fold B; fold kB; lia|].
-          split; [exact Hst5|]. cbn [app]. rewrite app_nil_r. exact Ht4.
+          split; [exact Hst5|]. cbn [app]. rewrite app_nil_r, Ht4, Ht2, app_assoc. reflexivity.
         + (* the body returns: the machine has left the routine *)
           injection Hit as Hsg Hss. subst sg ssx. right. split; [exact Hinr|]. exists v. split; [reflexivity|].
-          exact (returned_rebase im ss1 sx ss1 s3 (n + 1)%nat ([] ++ []) sb E23 eq_refl eq_refl (eq_sym (app_nil_r _)) Hret).
+          apply (returned_rebase im ss1 sx sa s3 (n + 1)%nat (e1 ++ []) sb E23); [exact (eq_trans Hct2 (eq_sym Hctx))|exact (loop_states_ret_stack s s3 sx lv r2 lv r Hfk3 Her2 Hsk3 Hfrx Herx Hstx (Hd Hinr))|rewrite app_nil_r; exact Ht2|exact Hret].
       - (* the condition fails: jump to END_LOOP *)
         injection Hit as Hsg Hss. subst ssx.
         set (s3 := with_pc s2 (m_pc s2 + (kB + 2))) in *.
         assert (Hfe3 : fetch im (m_pc s3) = Some (I0 OC_END_LOOP)).
         { unfold s3. cbn [with_pc m_pc]. rewrite Hpc2. replace (P0 + 1 + kT + (kB + 2)) with (P0 + 1 + kT + 1 + kB + 1) by lia. exact Hfe. }
-        destruct (end_loop_step im ss1 s3 s lv r (sim_with_pc ss1 s2 _ Hs2) Hfe3 Hfrx Herx Hstx) as (s4 & E4 & Hs4 & Hpc4 & Hst4).
-        left. split; [auto|]. exists (n + (1 + 1))%nat, s4, ([] ++ ([] ++ [])).
+        destruct (end_loop_step im sa s3 s lv r2 (sim_with_pc sa s2 _ Hs2) Hfe3 Hfk2 Her2 Hsk2) as (s4 & E4 & Hs4 & Hpc4 & Hst4).
+        left. split; [auto|]. exists (n + (1 + 1))%nat, s4, (e1 ++ ([] ++ [])).
         split; [eapply esteps_app; [exact Hn|eapply esteps_app; [exact Ej|exact E4]]|].
         split; [exact Hs4|]. split; [rewrite Hpc4; unfold s3; cbn [with_pc m_pc]; rewrite Hpc2; lia|].
-        split; [exact Hst4|]. rewrite app_nil_r. reflexivity. }
+        split; [exact Hst4|]. cbn [app]. rewrite app_nil_r. exact Ht2. }
     destruct (Hiter fuel ss s1 sig ss' [] (m_frames s) ltac:(lia) Hs1 eq_refl eq_refl eq_refl eq_refl He) as [[Hsig (n & sy & evs & En & Hsy & Hpcy & Hsty & Hty)]|[Hinr [v [Hsig Hret]]]].
     + left. split; [exact Hsig|]. exists (1 + n)%nat, sy, ([] ++ evs).
       split; [eapply esteps_app; [exact E1|exact En]|]. split; [exact Hsy|].
@@ -2239,7 +2241,7 @@ Fixpoint simpleB_b (fuel : nat) (inl inr : bool) (st : stmt) : bool :=
       | SIf c a None => (plain_rval mt c || callval_b c || valexpr_b c) && simpleB_b f inl inr a
       | SIf c a (Some b) => (plain_rval mt c || callval_b c || valexpr_b c) && simpleB_b f inl inr a && simpleB_b f inl inr b
       | SBlock l => forallb (simpleB_b f inl inr) l
-      | SRepeat (LWhile c) a => plain_rval mt c && simpleB_b f true inr a
+      | SRepeat (LWhile c) a => (plain_rval mt c || callval_b c || valexpr_b c) && simpleB_b f true inr a
       | SRepeat (LCount n) a => plain_rval mt n && simpleB_b f true inr a
       | SRepeat LInfinite a => simpleB_b f true inr a
       | SRepeat (LRange v x y) a => plain_rval mt x && plain_rval mt y && simpleB_b f true inr a
@@ -2308,7 +2310,7 @@ Proof.
     + apply andb_true_iff in H. destruct H as [Hc Ha]. apply B_if; [exact (Hval c Hc)|apply IH; exact Ha].
   - destruct l; try discriminate.
     + apply B_infinite. apply IH. exact H.
-    + apply andb_true_iff in H. destruct H as [Hc Ha]. apply B_while; [exact Hc|apply IH; exact Ha].
+    + apply andb_true_iff in H. destruct H as [Hc Ha]. apply B_while; [exact (Hval c Hc)|apply IH; exact Ha].
     + apply andb_true_iff in H. destruct H as [Hc Ha]. apply B_count; [exact Hc|apply IH; exact Ha].
     + apply andb_true_iff in H. destruct H as [H Ha]. apply andb_true_iff in H. destruct H as [Hx Hy].
       apply (B_idx rt mt inl inr _ _ _ _ (range_idx_form rt mt _ _ _ Hx Hy)). apply IH. exact Ha.
